@@ -361,6 +361,16 @@ fn cmd_replay(args: &[String]) -> i32 {
         "crash" => props::crash::replay(rp),
         "c14" => props::c14::replay(rp),
         "c13" => props::c13::replay(rp),
+        "miri" => {
+            // re-run the same oracle natively (the Miri-specific part needs `cargo +nightly miri run -- miri <what> <seed> <n>`)
+            let what = rp["what"].as_str().unwrap_or("c12").to_string();
+            let seed = rp["seed"].as_str().unwrap_or("1").to_string();
+            let n = if what == "c07" { "14" } else { "100" };
+            println!("to reproduce under Miri: cd /verif/harness && MIRIFLAGS=-Zmiri-disable-isolation cargo +nightly miri run -- miri {} {} {}", what, seed, n);
+            let code = props::miri::main(&["rlmon".into(), "miri".into(), what, seed, n.into()]);
+            return code;
+        }
+        "filename" => props::seq::replay_file_name(rp),
         "c09" => props::image::replay(rp, true),
         "c10" => props::image::replay(rp, false),
         "c07" => props::cache::replay(rp, true),
